@@ -14,7 +14,7 @@
    Abstractions (stated in notes/C05.md): a record value is an abstract `content` (header kind +
    typed payload) and the content hash is the content itself; signatures are the booleans the real
    verifiers return (`SignedRegister::verify`, `Scratchpad::is_valid`); `Record::expires` is always
-   `None`; `expected_holders` (logging only) is not modelled. *)
+   `None`; `expected_holders` is carried as data (cholders / qholders) that no outcome depends on. *)
 From Coq Require Import List NArith Bool.
 From V Require Import gen.Consts.
 Import ListNotations.
@@ -103,7 +103,13 @@ Definition quorum_value (q : quorum) : N :=
   | QOne => 1
   end.
 
-Record cfg := { cq : quorum; ctarget : option record; cisreg : bool }.
+(* cholders = GetRecordCfg::expected_holders: used for logging only; carried as data that must not
+   influence any outcome (proofs: outcomes_independent_of_expected_holders) *)
+Record cfg := { cq : quorum; ctarget : option record; cisreg : bool; cholders : list N }.
+
+(* a configuration without its expected_holders: everything that may influence an outcome *)
+Definition strip_cfg (c : cfg) : cfg :=
+  {| cq := cq c; ctarget := ctarget c; cisreg := cisreg c; cholders := [] |}.
 
 (* try_deserialize_record::<SignedRegister>: skips the header bytes without looking at the kind *)
 Definition as_reg (c : content) : option (N * list N) :=
@@ -152,7 +158,8 @@ Record query := {
   qkey : N;
   qcallers : list N;             (* the waiting senders, in push order *)
   qvers : list version;          (* arrival order; the code's map order is not observable here *)
-  qcfg : cfg                     (* the configuration of the caller that created the query *)
+  qcfg : cfg;                    (* the configuration of the caller that created the query *)
+  qholders : list N              (* cfg.expected_holders of the stored cfg: holders that have not answered yet *)
 }.
 
 Record state := {
@@ -221,7 +228,7 @@ Fixpoint join_query (key c : N) (l : list query) : option (list query) :=
   | x :: r =>
       if qkey x =? key then
         Some ({| qid := qid x; qkey := qkey x; qcallers := qcallers x ++ [c]; qvers := qvers x;
-                 qcfg := qcfg x |} :: r)
+                 qcfg := qcfg x; qholders := qholders x |} :: r)
       else match join_query key c r with Some r' => Some (x :: r') | None => None end
   end.
 
@@ -231,7 +238,7 @@ Definition handle_cmd (s : state) (key : N) (c : cfg) : state :=
   | Some p' => {| pending := p'; next_qid := next_qid s; next_cid := cid + 1; dead := dead s |}
   | None =>
       {| pending := pending s ++ [{| qid := next_qid s; qkey := key; qcallers := [cid]; qvers := [];
-                                     qcfg := c |}];
+                                     qcfg := c; qholders := cholders c |}];
          next_qid := next_qid s + 1; next_cid := cid + 1; dead := dead s |}
   end.
 
@@ -269,6 +276,9 @@ Definition set_pending (s : state) (p : list query) : state :=
 
 Definition nlen {A} (l : list A) : N := N.of_nat (length l).
 
+(* `if !cfg.expected_holders.is_empty() { cfg.expected_holders.remove(&peer_id) }` *)
+Definition remove_holder (p : peer) (hs : list N) : list N := filter (fun h => negb (h =? p)) hs.
+
 (* kad.rs accumulate_get_record_found *)
 Definition accumulate (s : state) (q : N) (p : option peer) (r : record)
   : state * list (N * outcome) * ret :=
@@ -290,7 +300,9 @@ Definition accumulate (s : state) (q : N) (p : option peer) (r : record)
         (s', o, rt)
       else
         (set_pending s (replace_query {| qid := qid x; qkey := qkey x; qcallers := qcallers x;
-                                         qvers := vers'; qcfg := qcfg x |} (pending s)), [], ROk)
+                                         qvers := vers'; qcfg := qcfg x;
+                                         qholders := remove_holder (peer_of p) (qholders x) |}
+                                      (pending s)), [], ROk)
   end.
 
 (* kad.rs handle_get_record_finished *)
@@ -528,14 +540,16 @@ Definition otarget_eqb (a b : option record) : bool :=
   | _, _ => false
   end.
 
-(* the hook's dump of pending_get_record: (query, key, number of senders, versions, quorum, target, is_register) *)
-Definition qdump := (N * N * N * list version * quorum * option record * bool)%type.
+(* the hook's dump of pending_get_record: (query, key, number of senders, versions, quorum, target,
+   is_register, expected_holders still stored) *)
+Definition qdump := (N * N * N * list version * quorum * option record * bool * list N)%type.
 
 Definition query_agrees (x : query) (d : qdump) : bool :=
   match d with
-  | (q, k, n, vs, qu, tg, ir) =>
+  | (q, k, n, vs, qu, tg, ir, hs) =>
       (qid x =? q) && (qkey x =? k) && (nlen (qcallers x) =? n) && versions_equiv (qvers x) vs
       && quorum_eqb (cq (qcfg x)) qu && otarget_eqb (ctarget (qcfg x)) tg && Bool.eqb (cisreg (qcfg x)) ir
+      && perm_mem_eqb (qholders x) hs
   end.
 
 Fixpoint pending_agrees (p : list query) (d : list qdump) : bool :=
